@@ -656,11 +656,19 @@ func ParseSpecFile(path, defaultPkg string) (*SpecFile, error) {
 			sf.Opaques = append(sf.Opaques, strings.Fields(rest)...)
 		case "guarded":
 			// guarded (Type) field by lock
+			// guarded (Type) f1,f2 by lock except Func1,Func2   (the functions after `except` are
+			// exempt: their accesses are argued single-threaded and listed as an assumption)
 			fs := strings.Fields(rest)
-			if len(fs) != 4 || fs[2] != "by" || !strings.HasPrefix(fs[0], "(") {
-				return nil, fail(fmt.Errorf("guarded (Type) field by lockfield"))
+			if !(len(fs) == 4 || (len(fs) == 6 && fs[4] == "except")) || fs[2] != "by" || !strings.HasPrefix(fs[0], "(") {
+				return nil, fail(fmt.Errorf("guarded (Type) field[,field] by lockfield [except Func[,Func]]"))
 			}
-			sf.Guarded = append(sf.Guarded, GuardSpec{Type: qualifyType(strings.Trim(fs[0], "()"), sf), Field: fs[1], Lock: fs[3]})
+			var exc []string
+			if len(fs) == 6 {
+				exc = strings.Split(fs[5], ",")
+			}
+			for _, f := range strings.Split(fs[1], ",") {
+				sf.Guarded = append(sf.Guarded, GuardSpec{Type: qualifyType(strings.Trim(fs[0], "()"), sf), Field: f, Lock: fs[3], Except: exc})
+			}
 		case "noeffect":
 			sf.NoEffect = append(sf.NoEffect, strings.Fields(rest)...)
 		case "contract", "assume", "interface":
@@ -1160,6 +1168,7 @@ func parseSpecFunc(rest string) (*SpecFunc, error) {
 // function under verification must happen while Type.lockfield (a sync.Mutex) is held.
 type GuardSpec struct {
 	Type, Field, Lock string
+	Except            []string // function key suffixes whose accesses are exempt (assumption)
 }
 
 type CallSiteSpec struct {
